@@ -162,6 +162,15 @@ class VArr(_np.ndarray):
     def __getitem__(self, key):
         if isinstance(key, GA):
             return GA(_np.ndarray.__getitem__(self, _np.asarray(key.vals)), key.guards)
+        if isinstance(key, tuple) and key and isinstance(key[0], GA) and not _b.any(isinstance(k, GA) or _is_symmask(k) for k in key[1:]):
+            # rows selected by a guarded selection, the other axes indexed natively (a[sel, column])
+            rest = tuple(int(k) if isinstance(k, SV) else k for k in key[1:])
+            r = _np.ndarray.__getitem__(self, (_np.asarray(key[0].vals),) + rest)
+            if r.ndim != 1:
+                raise Unsupported("guarded row selection that does not give a 1-d result")
+            return GA(r, key[0].guards)
+        if isinstance(key, _np.ndarray) and key.dtype == object and key.size == 0:
+            key = _np.zeros(key.shape, dtype=bool)      # an empty mask / index list of exact cells selects nothing
         if _is_symmask(key):
             key = _norm(key)
             if key.dtype == object:
@@ -178,7 +187,7 @@ class VArr(_np.ndarray):
     def __setitem__(self, key, value):
         CTX.tick()
         if isinstance(key, GA) or _is_symmask(key) or (isinstance(key, tuple) and _b.any(isinstance(k, GA) or _is_symmask(k) for k in key)):
-            raise Unsupported("store through a symbolic selection")
+            return self._store_selected(key, value)
         if isinstance(key, tuple) and _b.any(isinstance(k, SV) for k in key):
             key = tuple(int(k) if isinstance(k, SV) else k for k in key)
         elif isinstance(key, SV):
@@ -207,6 +216,44 @@ class VArr(_np.ndarray):
             if guard_now().c is None:
                 raise Unsupported("store into a native array inside a guard context")
         _np.ndarray.__setitem__(self, key, value)
+
+    def _store_selected(self, key, value):
+        """a[sel] = v and a[sel, k] = v where sel is a guarded selection of row indices or a symbolic 1-d mask:
+        candidate i is written iff its guard holds (in order, so a repeated index keeps the last write, as numpy does)."""
+        rest = ()
+        if isinstance(key, tuple):
+            key, rest = key[0], tuple(int(k) if isinstance(k, SV) else k for k in key[1:])
+            if _b.any(isinstance(k, GA) or _is_symmask(k) or isinstance(k, (slice, _np.ndarray, list)) for k in rest):
+                raise Unsupported("store through a symbolic selection combined with a non-scalar index")
+        if self.dtype != object:
+            raise Unsupported("store through a symbolic selection into a native array")
+        if isinstance(key, GA):
+            rows = [int(x) for x in _np.asarray(key.vals).flat]
+            guards = key.guards
+        else:
+            m = _norm(key)
+            if m.ndim != 1 or m.shape[0] != self.shape[0]:
+                raise Unsupported("symbolic mask store on a non 1-d selection")
+            rows = list(range(m.shape[0]))
+            guards = [SB.lift(x) for x in _np.asarray(m).flat]
+        if isinstance(value, GA):
+            if not GA(rows, guards)._same_guards(value):
+                raise Unsupported("store of a guarded selection through a different selection")
+            vals = [_lift(x) for x in _np.asarray(value.vals).flat]
+        elif isinstance(value, (_np.ndarray, list, tuple)) and _np.ndim(value) > 0:
+            raise Unsupported("store of an array through a symbolic selection (its length would be symbolic)")
+        else:
+            vals = [_lift(value[()] if isinstance(value, _np.ndarray) else value)] * len(rows)
+        gnow = guard_now()
+        for r, g, v in zip(rows, guards, vals):
+            g = g & gnow
+            if g.c is False:
+                continue
+            k = (r,) + rest
+            old = _np.ndarray.__getitem__(self, k)
+            if isinstance(old, _np.ndarray):
+                raise Unsupported("store through a symbolic selection into sub-arrays")
+            _np.ndarray.__setitem__(self, k, ite(g, v, old))
 
     def fill(self, v):
         CTX.tick()
@@ -506,6 +553,14 @@ class GA:
     @property
     def shape(s):
         raise Unsupported("shape of a guarded selection")
+
+    @property
+    def size(s):
+        """Number of selected elements: exact when every guard is decided, a symbolic count otherwise."""
+        cnt = SV(c=Fraction(0))
+        for g in s.guards:
+            cnt = cnt + SV.lift(g)
+        return int(cnt.c) if cnt.c is not None else cnt
 
     __hash__ = None
 
@@ -853,6 +908,13 @@ def isclose(a, b, rtol=1e-05, atol=1e-08, equal_nan=False):
         x, y = SV.lift(x), SV.lift(y)
         return abs(x - y) <= at + rt * abs(y)
 
+    if isinstance(a, GA) or isinstance(b, GA):
+        ga = a if isinstance(a, GA) else b
+        if isinstance(a, GA) and isinstance(b, GA) and not a._same_guards(b):
+            raise Unsupported("isclose of guarded selections with different guards")
+        av = _obj(a.vals) if isinstance(a, GA) else _obj(a)
+        bv = _obj(b.vals) if isinstance(b, GA) else _obj(b)
+        return GA(_np.frompyfunc(one, 2, 1)(av, bv), ga.guards)
     if not isinstance(a, _np.ndarray) and not isinstance(b, _np.ndarray):
         return _norm(one(a, b))
     return _norm(_W(_np.frompyfunc(one, 2, 1)(_obj(a), _obj(b))))
@@ -926,6 +988,13 @@ def where(cond, x=None, y=None):
                     raise Unsupported("np.where on a symbolic n-d mask")
                 return (GA(_np.arange(len(ks)), ks),)
         return tuple(_W(r) for r in _np.where(_np.asarray(c)))
+    if _b.any(isinstance(v, GA) for v in (cond, x, y)):
+        gas = [v for v in (cond, x, y) if isinstance(v, GA)]
+        if not _b.all(gas[0]._same_guards(v) for v in gas[1:]):
+            raise Unsupported("np.where over guarded selections with different guards")
+        f = _np.frompyfunc(lambda c, a, b: ite(SB.lift(c), a, b), 3, 1)
+        cells = [_obj(v.vals) if isinstance(v, GA) else _obj(v) for v in (cond, x, y)]
+        return GA(f(*cells), gas[0].guards)
     if not _b.any(_is_obj(v) or isinstance(v, (SV, SB)) for v in (cond, x, y)):
         return _floatify(_np.where(_np.asarray(cond), x, y))
     f = _np.frompyfunc(lambda c, a, b: ite(SB.lift(c), a, b), 3, 1)
